@@ -166,6 +166,12 @@ func PDFHex() []byte {
 	return pdfw.Write(PDFDoc(), pdfw.Layout{Filter: "AHx", Split: 2}).Bytes
 }
 
+// PDFRev2: two revisions chained by /Prev; the update replaces an existing object (the first content stream of
+// page 1, whose revision-1 version shows stale text) without adding object numbers, so both trailers declare one /Size.
+func PDFRev2() []byte {
+	return pdfw.Write(PDFDoc(), pdfw.Layout{Revisions: 2}).Bytes
+}
+
 func PDFStream() []byte {
 	return pdfw.Write(PDFDoc(), pdfw.Layout{XRef: "stream", ObjStm: "all", Filter: "Fl"}).Bytes
 }
@@ -245,7 +251,7 @@ func Named() []struct {
 		Name string
 		Data []byte
 	}{
-		{"a.pdf", PDF()}, {"pending.pdf", PDFPending()}, {"broken.pdf", PDFBroken()}, {"stream.pdf", PDFStream()}, {"ties.pdf", PDFTies()}, {"widths.pdf", PDFWidths()}, {"forms.pdf", PDFForms()}, {"badkid.pdf", PDFBadKid()}, {"hf.pdf", PDFHeaderFooter()}, {"samebase.pdf", PDFSameBaseFont()}, {"hex.pdf", PDFHex()},
+		{"a.pdf", PDF()}, {"pending.pdf", PDFPending()}, {"broken.pdf", PDFBroken()}, {"stream.pdf", PDFStream()}, {"ties.pdf", PDFTies()}, {"widths.pdf", PDFWidths()}, {"forms.pdf", PDFForms()}, {"badkid.pdf", PDFBadKid()}, {"hf.pdf", PDFHeaderFooter()}, {"samebase.pdf", PDFSameBaseFont()}, {"hex.pdf", PDFHex()}, {"rev2.pdf", PDFRev2()},
 		{"a.docx", DOCX()}, {"a.odt", ODT()}, {"a.xlsx", XLSX()}, {"a.pptx", PPTX()}, {"a.epub", EPUB3()}, {"b.epub", EPUB2()}, {"a.html", HTML()},
 	}
 }
